@@ -115,6 +115,9 @@ structure Ghost where
   -- thread's ring
   acceptedBy : List (Nat × Cmd) := []
   drainedBy : List (Nat × Cmd) := []
+  /-- traces for which the collector derived a cancel command from `parkedCancels` (commands that
+      were not sent through any channel) -/
+  injected : List Nat := []
 deriving Repr, Inhabited
 
 structure Sys where
@@ -130,6 +133,7 @@ structure Sys where
   adapters : List (String × Adapter) := []
   deferred : List Nat := []         -- collect ids whose commit was first seen in a second drain pass
   carried : List Cmd := []          -- drops / span sets first seen in a second drain pass that wait for the next cycle
+  parkedCancels : List Nat := []    -- `PARKED_CANCELS`: traces whose cancel signal is parked on its thread (queue full)
   g : Ghost := {}                   -- history variables (ghost)
 deriving Repr, Inhabited
 
@@ -297,6 +301,13 @@ def Sys.sendCmd (s : Sys) (t : Nat) (cmd : Cmd) (forced : Bool) : Sys :=
           (if ok then { s.g with accepted := cmd :: s.g.accepted, acceptedBy := (t, cmd) :: s.g.acceptedBy }
            else { s.g with refused := cmd :: s.g.refused })
 
+/-- `GlobalCollect::drop_collect` after `force_send_command`: if the call returned false — the
+    signal is parked in this thread's overflow list, where the collector cannot see it — a note
+    is left in `PARKED_CANCELS` -/
+def Sys.noteParked (s : Sys) (t cid : Nat) : Sys :=
+  if (s.th t).pending.isEmpty then s
+  else { s with parkedCancels := if s.parkedCancels.contains cid then s.parkedCancels else cid :: s.parkedCancels }
+
 /-- `GlobalCollect::submit_spans` -/
 def Sys.submitSpans (s : Sys) (t : Nat) (spans : SpanSet) (token : Token) : Sys :=
   let token := token.filter (·.isSampled)
@@ -455,6 +466,26 @@ def Sys.finishCycle (s : Sys) (kept : List (Nat × Ring Cmd)) (buf buf2 : List C
         { s.g with consumed := batch ++ s.g.consumed, reported := rep.getD [] ++ s.g.reported }
       else { s.g with discarded := batch ++ later2 ++ buf2.filter Cmd.isCommit ++ s.g.discarded }), rep)
 
+/-- `PARKED_CANCELS` is consulted for every commit this cycle handles: (ids found, what remains) -/
+def takeParked : List Nat → List Nat → List Nat × List Nat
+  | [], parked => ([], parked)
+  | id :: rest, parked =>
+    if parked.contains id then
+      let (inj, p) := takeParked rest (parked.filter (· != id))
+      (id :: inj, p)
+    else takeParked rest parked
+
+/-- `handle_commands` after the drain.  With a reporter: a trace committed in this cycle whose
+    cancel signal is parked on the thread that called `cancel()` (its queue was full) gets a cancel
+    command from the collector itself, handled like a cancel popped in the second pass. -/
+def Sys.finishCycleP (s : Sys) (kept : List (Nat × Ring Cmd)) (buf buf2 : List Cmd) : Sys × Option (List Record) :=
+  if s.coll.hasReporter then
+    let tp := takeParked (s.deferred ++ commitsOf buf) s.parkedCancels
+    let injd := tp.1.map Cmd.drop
+    let r := s.finishCycle kept buf (buf2 ++ injd)
+    (({ r.1 with parkedCancels := tp.2 } : Sys).withG { r.1.g with injected := tp.1 ++ r.1.g.injected }, r.2)
+  else s.finishCycle kept buf buf2
+
 /-- the whole drain at once (no operation falls inside it) -/
 def drainAll : List (Nat × Ring Cmd) → List (Nat × Ring Cmd) × List Cmd
   | [] => ([], [])
@@ -475,7 +506,7 @@ def Sys.logDrained (s : Sys) (t : Nat) (q : List Cmd) : Sys :=
 /-- a whole cycle with nothing in between: the second pass finds the rings empty -/
 def Sys.cycle (s : Sys) : Sys × Option (List Record) :=
   let (kept, buf) := drainAll s.rxs
-  (s.withG { s.g with drainedBy := (drainAllTagged s.rxs).reverse ++ s.g.drainedBy }).finishCycle kept buf []
+  (s.withG { s.g with drainedBy := (drainAllTagged s.rxs).reverse ++ s.g.drainedBy }).finishCycleP kept buf []
 
 /-- the first pass is over: the retained receivers are drained once more, or — if none is
     left — processing and report come next -/
@@ -491,7 +522,7 @@ def Sys.cycStep (s : Sys) : Sys × Obs :=
   | some cs =>
     match cs.phase, cs.todo with
     | .atReport, _ =>
-      let (s, rep) := s.finishCycle cs.kept cs.buf cs.buf2
+      let (s, rep) := s.finishCycleP cs.kept cs.buf cs.buf2
       (s, .report rep)
     | .atRx2, _ =>
       -- second pass: everything in this retained receiver's ring is popped (no removal here)
@@ -752,7 +783,8 @@ def exec (s : Sys) (t : Nat) (op : Op) : Sys × Obs :=
     | some none => (s, .ok)
     | some (some sp) =>
       match sp.collectId with
-      | some cid => (s.sendCmd t (.drop cid) true, .ok)
+      | some cid =>
+        ((s.sendCmd t (.drop cid) true).noteParked t cid, .ok)
       | none => (s, .ok)
   | .drop v =>
     match assocGet s.spans v with
